@@ -107,6 +107,12 @@ def st_mod(base):
         {"kind": "param", "name": name, "attr": "min"},
         {"kind": "param", "name": name, "attr": "max"}])))
     mods.append(st.just({"kind": "param", "name": "baseline", "attr": "expr"}))
+    # an expression that evaluates to the value a fixed parameter already has (only `expr` differs)
+    mods.append(st.just({"kind": "param", "name": "baseline", "attr": "expr_same"}))
+    # SI-scale settings are tiny numbers: changes far below 1e-12 in absolute terms are still changes
+    mods.append(st.tuples(st.sampled_from(["baseline_fixed", "contact_point_fixed", "weight_cp", "gcf_k", "range_hi"]),
+                          st.floats(1e-13, 4e-13), st.sampled_from([1, -1])).map(
+        lambda t: {"kind": "tiny", "what": t[0], "delta": t[1] * t[2]}))
     # --- data
     mods.append(st.tuples(st.sampled_from(["force", "tip position"]), st.floats(0, 1),
                           st.sampled_from(["ulp", "ulp", 1e-12, 1e-6, 1e-2])).map(
@@ -138,7 +144,7 @@ class _Named(list):
         return list(self)
 
 
-GROUPS = ["model_key", "range_type", "segment", "range_bound", "weight_cp", "gcf_k", "method", "method_kws",
+GROUPS = ["tiny", "model_key", "range_type", "segment", "range_bound", "weight_cp", "gcf_k", "method", "method_kws",
           "optimal_fit_edelta", "optimal_fit_num_samples", "param", "param_expr", "data", "preprocessing",
           "pre_option", "representation", "dontcare"]
 
@@ -148,7 +154,7 @@ def group_of(mod):
     if k == "setting":
         return mod["key"]
     if k == "param":
-        return "param_expr" if mod["attr"] == "expr" else "param"
+        return "param_expr" if mod["attr"].startswith("expr") else "param"
     return k
 
 
@@ -211,6 +217,13 @@ def build(base, mod=None, fit=False):
     pi = make_params(cfg["model_key"] if not (kind == "setting" and mod["key"] == "model_key") else mod["value"],
                      {"E": base["pinit"]["E"], "contact_point": curve["params"]["contact_point"] + base["pinit"]["cp_frac"] * curve["depth"]},
                      {"baseline": base["pinit"]["vary_baseline"]})
+    twin = base.get("_twin_mod") or mod
+    if twin.get("kind") == "tiny" and twin["what"].endswith("_fixed"):
+        pi[twin["what"].split("_fixed")[0]].set(vary=False)
+    if twin.get("kind") == "tiny" and twin["what"] == "weight_cp" and not kw["weight_cp"]:
+        kw["weight_cp"] = 5e-7
+    if twin.get("kind") == "param" and twin.get("attr") == "expr_same":
+        pi["baseline"].set(vary=False)
     if kind == "setting":
         kw[mod["key"]] = mod["value"]
         if mod.get("reset_kws"):
@@ -238,6 +251,21 @@ def build(base, mod=None, fit=False):
             p.set(max=p.value + abs(p.value) * 0.5 + 1e-7)
         elif mod["attr"] == "expr":
             p.set(expr="E*1e-15")
+        elif mod["attr"] == "expr_same":
+            p.set(expr="%r + 0*E" % float(p.value))
+    elif kind == "tiny":
+        w = mod["what"]
+        if w == "weight_cp":
+            kw["weight_cp"] = (kw["weight_cp"] or 5e-7) + mod["delta"]
+        elif w == "gcf_k":
+            kw["gcf_k"] = kw["gcf_k"] + mod["delta"]
+        elif w == "range_hi":
+            r = list(kw["range_x"])
+            r[1] = r[1] + mod["delta"]
+            kw["range_x"] = r
+        else:
+            name = w.split("_fixed")[0]
+            pi[name].set(value=pi[name].value + mod["delta"], vary=False)
     elif kind == "dontcare":
         if mod["what"] == "num_samples":
             kw["optimal_fit_num_samples"] = mod["value"]
@@ -290,6 +318,7 @@ def check_case(case, ctx):
     label = kind + ":" + str(mod.get("key") or mod.get("attr") or mod.get("variant") or mod.get("what") or mod.get("column") or "")
     desc = {"change": label}
     ctx.note_case(case, nontrivial=True, classes=[kind, label])
+    base = dict(base, _twin_mod=mod)   # the unmodified side shares the preconditions of the modification
     with fitgen.catch() as box:
         i1, kw1 = build(base)
         h1 = get_hash(i1, kw1)
@@ -325,8 +354,23 @@ def check_case(case, ctx):
                       f"{label} ({json.dumps(mod)}): hash {h1} for both, results differ: "
                       f"{[k for k in r1 if r1[k] != r2[k] and k not in ('fit', 'range')]}")
             ctx.event("equal_hash_equal_result")
+    # hash after history: fit the base, then request the modified configuration on the SAME object; the stored hash
+    # must be the hash a fresh object gets for that configuration (pure function of values)
+    from vlib.runner import fingerprint
+    pick = int(fingerprint(case), 16)     # a pure function of the case (replayable), not of a run counter
+    if kind in ("setting", "param", "range_bound", "tiny") and pick % 3 == 0:
+        with fitgen.catch() as box:
+            i1.fit_model(**kw1)
+            kw2h = {k: v for k, v in kw2.items()}
+            i1.fit_model(**kw2h)
+        if box["exc"] is None and "hash" in i1.fit_properties:
+            ctx.check(i1.fit_properties["hash"] == h2, "hash-depends-on-history", desc,
+                      f"{label}: after fitting the base and then the modified settings on one object the stored hash is "
+                      f"{i1.fit_properties['hash']}, a fresh object hashes the same settings to {h2}")
+            ctx.event("history_hash_compared")
+        return
     # the hash stored after fitting is the fitter's hash
-    if ctx.evaluations % 10 == 0:
+    if pick % 10 == 1:
         with fitgen.catch() as box:
             i1.fit_model(**kw1)
         if box["exc"] is None:
